@@ -291,6 +291,12 @@ def cmd_check(prop, tier, verif_seed, runs=None, workers=None):
         case['signature'] = sig
         path = core.write_replay(case)
         ok, out = core.replay_in_fresh_interpreter(prop, path)
+        if not ok:
+            # the shrunk case depended on state left in THIS process by earlier replays (possible only when the library
+            # leaks state between runs): fall back to the recorded, unshrunk run, which started in a clean worker state
+            case = dict(r['case'], property=prop, verif_seed=verif_seed, index=r['i'], signature=sig0, unminimised=True)
+            path = core.write_replay(case, tag='-full')
+            ok, out = core.replay_in_fresh_interpreter(prop, path)
         if ok:
             viol_lines.append(f'VIOLATION property={prop} replay={path}')
             print(viol_lines[-1])
@@ -358,7 +364,7 @@ def cmd_check(prop, tier, verif_seed, runs=None, workers=None):
     core.write_evidence(prop, tier, verif_seed, spec['level'], cov, wall, violations, spec['assumptions'])
     print(f'runs={len(results)} steps={steps} distinct_logs={len(digs)} tuples={len(tuples)} shapes={len(shapes)} '
           f'violations={violations} known_hits={known_hits} wall={wall:.1f}s', flush=True)
-    if exit_code == 2:
+    if exit_code == 2 and not viol_lines:  # a violation verified from its replay file in a fresh interpreter stands
         return 2
     if violations:
         if not viol_lines:
